@@ -264,7 +264,7 @@ func project(n *exh.Node) []Ent {
 		if err != nil {
 			return
 		}
-		m := uint32(0)
+		m := n.Genesis.Header.Height // empty window right after genesis: the store is at the genesis height
 		if len(infos) > 0 {
 			m = infos[0].Height
 		}
